@@ -19,6 +19,14 @@ import (
 type Resp struct {
 	Body []byte
 	Cut  int
+	// IDDelta is added to the correlation id echoed in the response (0 = the request's id; anything else is a framing
+	// error of the broker: a response nobody asked for).
+	IDDelta int32
+	// Stall (with Cut >= 0): after the prefix the broker goes silent instead of dropping the connection
+	Stall bool
+	// SizeSet: the size prefix of the frame is Size instead of len(Body)+4 (a lying size prefix)
+	SizeSet bool
+	Size    int32
 }
 
 // Req is one request seen by the broker.
@@ -35,9 +43,11 @@ type Broker struct {
 	log      []Req
 	written  int // bytes of responses written so far
 	srv      net.Conn
-	hold     int      // >0: collect this many responses before writing any (several requests in flight)
-	holdCut  int      // cut position over the concatenation of the held frames (<0: none)
+	hold     int // >0: collect this many responses before writing any (several requests in flight)
+	holdCut  int // cut position over the concatenation of the held frames (<0: none)
 	pending  [][]byte
+	rawResp  []byte // != nil: the next exchange is un-framed (sasl v0 token): [int32 len][bytes] both ways
+	rawCut   int
 	done     chan struct{}
 }
 
@@ -54,6 +64,14 @@ func Start(topic string, versions map[int16]int16) (*kafka.Conn, *Broker) {
 func (b *Broker) Push(key int16, r Resp) {
 	b.mu.Lock()
 	b.script[key] = append(b.script[key], r)
+	b.mu.Unlock()
+}
+
+// RawNext makes the next exchange (after the framed ones already scripted) an un-framed one: the broker reads
+// [int32 n][n bytes] and answers with `resp` as is, cut after `cut` bytes (cut < 0: whole), closing after a cut.
+func (b *Broker) RawNext(resp []byte, cut int) {
+	b.mu.Lock()
+	b.rawResp, b.rawCut = append([]byte{}, resp...), cut
 	b.mu.Unlock()
 }
 
@@ -120,12 +138,64 @@ func Frame(id int32, body []byte) []byte {
 func (b *Broker) serve() {
 	defer close(b.done)
 	defer b.srv.Close()
+	// responses are written by a second goroutine so that the broker keeps reading requests while a response waits
+	// for the client to read it (net.Pipe has no buffer; a real socket has one)
+	type outFrame struct {
+		f     []byte
+		cut   bool
+		stall bool
+	}
+	wq := make(chan outFrame, 256)
+	defer close(wq)
+	go func() {
+		for o := range wq {
+			b.srv.SetWriteDeadline(time.Now().Add(10 * time.Second))
+			n, err := b.srv.Write(o.f)
+			b.mu.Lock()
+			b.written += n
+			b.mu.Unlock()
+			if err != nil || o.cut {
+				if err != nil || !o.stall {
+					b.srv.Close()
+				}
+				for range wq {
+				}
+				return
+			}
+		}
+	}()
 	var hdr [4]byte
 	for {
 		if _, err := io.ReadFull(b.srv, hdr[:]); err != nil {
 			return
 		}
 		n := int(binary.BigEndian.Uint32(hdr[:]))
+		b.mu.Lock()
+		raw, rawCut := b.rawResp, b.rawCut
+		b.mu.Unlock()
+		if raw != nil && n < 8 {
+			tok := make([]byte, n)
+			if _, err := io.ReadFull(b.srv, tok); err != nil {
+				return
+			}
+			b.mu.Lock()
+			b.rawResp = nil
+			b.mu.Unlock()
+			cut := rawCut >= 0 && rawCut < len(raw)
+			if cut {
+				raw = raw[:rawCut]
+			}
+			wq <- outFrame{raw, cut, false}
+			if cut {
+				for i := 0; i < 2000; i++ {
+					if _, err := b.srv.Read(hdr[:1]); err != nil {
+						break
+					}
+				}
+				return
+			}
+			continue
+		}
 		if n < 8 || n > 64<<20 {
 			return
 		}
@@ -150,7 +220,10 @@ func (b *Broker) serve() {
 			}
 			resp = Resp{Body: ApiVersionsBody(0, b.versions), Cut: -1}
 		}
-		f := Frame(r.ID, resp.Body)
+		f := Frame(r.ID+resp.IDDelta, resp.Body)
+		if resp.SizeSet {
+			binary.BigEndian.PutUint32(f[0:], uint32(resp.Size))
+		}
 		b.mu.Lock()
 		if b.hold > 0 {
 			b.pending = append(b.pending, f)
@@ -170,12 +243,23 @@ func (b *Broker) serve() {
 		if cut {
 			f = f[:resp.Cut]
 		}
-		b.srv.SetWriteDeadline(time.Now().Add(10 * time.Second))
-		n, err := b.srv.Write(f)
-		b.mu.Lock()
-		b.written += n
-		b.mu.Unlock()
-		if err != nil || cut {
+		wq <- outFrame{f, cut, resp.Stall}
+		if cut && resp.Stall {
+			// silent from here on: requests are read and ignored until the client gives up / Stop
+			buf := make([]byte, 4096)
+			for {
+				if _, err := b.srv.Read(buf); err != nil {
+					return
+				}
+			}
+		}
+		if cut {
+			// the connection is dropped by the writer once the prefix is out; nothing more is read
+			for i := 0; i < 2000; i++ {
+				if _, err := b.srv.Read(hdr[:1]); err != nil {
+					break
+				}
+			}
 			return
 		}
 	}
@@ -186,11 +270,18 @@ type W struct {
 	B      []byte
 	Errs   []int16 // error codes to place, consumed in order by Err(); 0 when exhausted
 	ErrPos []int   // byte offsets (within B) of the error-code fields written so far
+	CntPos []int   // byte offsets of the int32 array-count fields written so far
 }
 
 func (w *W) I8(v int8)   { w.B = append(w.B, byte(v)) }
 func (w *W) I16(v int16) { w.B = append(w.B, byte(v>>8), byte(v)) }
 func (w *W) I32(v int32) { w.B = append(w.B, byte(v>>24), byte(v>>16), byte(v>>8), byte(v)) }
+
+// Cnt writes an int32 array count and records where.
+func (w *W) Cnt(v int32) {
+	w.CntPos = append(w.CntPos, len(w.B))
+	w.I32(v)
+}
 func (w *W) I64(v int64) {
 	w.I32(int32(v >> 32))
 	w.I32(int32(v))
